@@ -674,6 +674,11 @@ end HtmlVerif.Generated
         gen_tags_all=gen_all if gen_all_located else None,
         fingerprints=fingerprints(),
     )
+    # behavioural code: selected functions are translated statement by statement (DESIGN §14)
+    import pytranslate
+    src = pytranslate.generate()
+    notes.extend(src["notes"])
+    info["src_available"] = src["available"]
     return info
 
 
